@@ -241,7 +241,12 @@ macro_rules! impl_build {
                     data: s.data.iter().copied().collect(),
                     fill: s.fill_bit_count,
                     message_type: s.message_type,
-                    message: s.message.as_ref().map(|m| format!("{:?}", m)),
+                    // (a Debug impl is code of the crate too: a panic in it must not take the
+                    // worker down - it becomes part of the rendered text, equal where it is equal)
+                    message: s.message.as_ref().map(|m| match guard(|| format!("{:?}", m)) {
+                        Ok(t) => t,
+                        Err(p) => format!("<Debug of the message panicked: {}>", p),
+                    }),
                 }
             }
 
@@ -292,7 +297,8 @@ macro_rules! impl_build {
                     }
                 }
                 fn state(&self) -> String {
-                    format!("{:?}", self.p)
+                    let p = &self.p;
+                    guard(|| format!("{:?}", p)).unwrap_or_else(|e| format!("<Debug of the parser panicked: {}>", e))
                 }
                 fn restart(&mut self) {
                     evlog($build, b"", || "restart".to_string());
@@ -338,10 +344,12 @@ macro_rules! impl_build {
             }
 
             pub fn unarmor(data: &[u8], fill: usize) -> ApiOutcome {
-                let out = match guard(|| $krate::messages::unarmor(data, fill)) {
+                let out = match guard(|| {
+                    $krate::messages::unarmor(data, fill).map(|v| format!("{:?}", &v[..])).map_err(|e| format!("{:?}", e))
+                }) {
                     Err(p) => ApiOutcome::Panic(p),
-                    Ok(Ok(v)) => ApiOutcome::Ok(format!("{:?}", &v[..])),
-                    Ok(Err(e)) => ApiOutcome::Err(format!("{:?}", e)),
+                    Ok(Ok(v)) => ApiOutcome::Ok(v),
+                    Ok(Err(e)) => ApiOutcome::Err(e),
                 };
                 evlog($build, data, || format!("unarmor{}{:?}", fill, out));
                 out
@@ -355,10 +363,12 @@ macro_rules! impl_build {
             }
 
             pub fn decode(unarmored: &[u8]) -> ApiOutcome {
-                let out = match guard(|| $krate::messages::parse(unarmored)) {
+                let out = match guard(|| {
+                    $krate::messages::parse(unarmored).map(|m| format!("{:?}", m)).map_err(|e| format!("{:?}", e))
+                }) {
                     Err(p) => ApiOutcome::Panic(p),
-                    Ok(Ok(m)) => ApiOutcome::Ok(format!("{:?}", m)),
-                    Ok(Err(e)) => ApiOutcome::Err(format!("{:?}", e)),
+                    Ok(Ok(m)) => ApiOutcome::Ok(m),
+                    Ok(Err(e)) => ApiOutcome::Err(e),
                 };
                 evlog($build, unarmored, || format!("decode{:?}", out));
                 out
